@@ -174,13 +174,26 @@ pub fn gen_cases(seed: u64, n: usize, thorough: bool) -> Vec<String> {
     for k in 0..reps {
         let cnt = rng.range(1, 4) as usize;
         let mut chosen: Vec<&str> = Vec::new();
+        // a third of the files mix all kinds, a third hold no mesh pipeline, a third hold nothing else (a Metal mesh
+        // function beside a pipeline without a mesh stage is a recorded finding that ends the comparison early)
+        let family: Vec<&str> = match (k / 3) % 3 {
+            0 => kinds.clone(),
+            1 => kinds.iter().copied().filter(|x| x.starts_with("Comp") || x.starts_with("Gfx")).collect(),
+            _ => kinds.iter().copied().filter(|x| x.starts_with("Mesh") || x.starts_with("Task")).collect(),
+        };
+        let cnt = cnt.min(family.len());
         while chosen.len() < cnt {
-            let c = *rng.pick(&kinds);
+            let c = *rng.pick(&family);
             if !chosen.contains(&c) { chosen.push(c); }
         }
         let target = ["HlslForDirectX", "HlslForVulkan", "Msl"][k % 3];
         out.push(format!("I {} {}", chosen.join(","), target));
     }
     for k in &kinds { for t in ["HlslForDirectX", "HlslForVulkan", "Msl"] { out.push(format!("I {} {}", k, t)); } }
+    // every ordered pair of pipelines without a mesh stage, and of pipelines with one
+    for fam in [["Comp", "Gfx"], ["Mesh", "Task"]] {
+        let f: Vec<&str> = kinds.iter().copied().filter(|x| fam.iter().any(|p| x.starts_with(p))).collect();
+        for a in &f { for b in &f { if a != b { for t in ["HlslForDirectX", "Msl"] { out.push(format!("I {},{} {}", a, b, t)); } } } }
+    }
     out
 }
